@@ -101,7 +101,8 @@ def run(ctx):
     # ---- whole tool: three drivers on real multi-package modules
     rng = random.Random(ctx.seed + 12)
     tmp = []
-    mods = [os.path.join(common.VERIF, "corpus", "c15"), os.path.join(common.VERIF, "corpus", "c03", "m4"), os.path.join(common.VERIF, "corpus", "c03", "m11")]
+    mods = [os.path.join(common.VERIF, "corpus", "c15"), os.path.join(common.VERIF, "corpus", "c03", "m4"), os.path.join(common.VERIF, "corpus", "c03", "m11"),
+            os.path.join(common.VERIF, "corpus", "c03", "m12")]
     d = ctx.scratch()
     for rel, txt in list(MOD_FILES.items()) + list(EXTRA.items()):
         os.makedirs(os.path.dirname(os.path.join(d, rel)), exist_ok=True)
